@@ -103,6 +103,7 @@ const PACK_BUILD: Spec = Spec {
         ("pre-buildpack", None, FK::Val), ("post-buildpack", None, FK::Val), ("platform", None, FK::Val), ("exec-env", None, FK::Val),
         ("trust-builder", None, FK::Bool), ("trust-extra-buildpacks", None, FK::Bool), ("clear-cache", None, FK::Bool), ("publish", None, FK::Bool), ("verbose", Some('v'), FK::Bool), ("quiet", Some('q'), FK::Bool),
         ("no-color", None, FK::Bool), ("timestamps", None, FK::Bool), ("interactive", None, FK::Bool), ("sparse", None, FK::Bool), ("help", Some('h'), FK::Bool),
+        ("force-color", None, FK::Bool), ("insecure-registry", None, FK::Val), ("layout-repo-dir", None, FK::Val), ("sbom-output-dir", None, FK::Val), ("layout", None, FK::Bool), ("disable-system-buildpacks", None, FK::Bool),
     ],
 };
 const PACK_SBOM: Spec = Spec { interspersed: true, flags: &[("output-dir", Some('o'), FK::Val), ("remote", None, FK::Bool), ("verbose", Some('v'), FK::Bool), ("quiet", Some('q'), FK::Bool), ("no-color", None, FK::Bool), ("timestamps", None, FK::Bool)] };
@@ -112,8 +113,10 @@ const DOCKER_RUN: Spec = Spec {
         ("name", None, FK::Val), ("platform", None, FK::Val), ("entrypoint", None, FK::Val), ("env", Some('e'), FK::Val), ("publish", Some('p'), FK::Val), ("mount", None, FK::Val), ("volume", Some('v'), FK::Val),
         ("workdir", Some('w'), FK::Val), ("user", Some('u'), FK::Val), ("label", Some('l'), FK::Val), ("network", None, FK::Val), ("hostname", Some('h'), FK::Val), ("memory", Some('m'), FK::Val), ("cpus", None, FK::Val),
         ("restart", None, FK::Val), ("pull", None, FK::Val), ("env-file", None, FK::Val), ("expose", None, FK::Val), ("add-host", None, FK::Val), ("cap-add", None, FK::Val), ("device", None, FK::Val), ("tmpfs", None, FK::Val),
+        ("annotation", None, FK::Val), ("attach", Some('a'), FK::Val), ("blkio-weight", None, FK::Val), ("blkio-weight-device", None, FK::Val), ("cap-drop", None, FK::Val), ("cgroup-parent", None, FK::Val), ("cgroupns", None, FK::Val), ("cidfile", None, FK::Val), ("cpu-period", None, FK::Val), ("cpu-quota", None, FK::Val), ("cpu-rt-period", None, FK::Val), ("cpu-rt-runtime", None, FK::Val), ("cpu-shares", Some('c'), FK::Val), ("cpuset-cpus", None, FK::Val), ("cpuset-mems", None, FK::Val), ("detach-keys", None, FK::Val), ("device-cgroup-rule", None, FK::Val), ("device-read-bps", None, FK::Val), ("device-read-iops", None, FK::Val), ("device-write-bps", None, FK::Val), ("device-write-iops", None, FK::Val), ("dns", None, FK::Val), ("dns-option", None, FK::Val), ("dns-search", None, FK::Val), ("domainname", None, FK::Val), ("gpus", None, FK::Val), ("group-add", None, FK::Val), ("health-cmd", None, FK::Val), ("health-interval", None, FK::Val), ("health-retries", None, FK::Val), ("health-start-interval", None, FK::Val), ("health-start-period", None, FK::Val), ("health-timeout", None, FK::Val), ("io-maxbandwidth", None, FK::Val), ("io-maxiops", None, FK::Val), ("ip", None, FK::Val), ("ip6", None, FK::Val), ("ipc", None, FK::Val), ("isolation", None, FK::Val), ("kernel-memory", None, FK::Val), ("label-file", None, FK::Val), ("link", None, FK::Val), ("link-local-ip", None, FK::Val), ("log-driver", None, FK::Val), ("log-opt", None, FK::Val), ("mac-address", None, FK::Val), ("memory-reservation", None, FK::Val), ("memory-swap", None, FK::Val), ("memory-swappiness", None, FK::Val), ("network-alias", None, FK::Val), ("oom-score-adj", None, FK::Val), ("pid", None, FK::Val), ("pids-limit", None, FK::Val), ("runtime", None, FK::Val), ("security-opt", None, FK::Val), ("shm-size", None, FK::Val), ("stop-signal", None, FK::Val), ("stop-timeout", None, FK::Val), ("storage-opt", None, FK::Val), ("sysctl", None, FK::Val), ("ulimit", None, FK::Val), ("userns", None, FK::Val), ("uts", None, FK::Val), ("volume-driver", None, FK::Val), ("volumes-from", None, FK::Val), 
         ("detach", Some('d'), FK::Bool), ("rm", None, FK::Bool), ("interactive", Some('i'), FK::Bool), ("tty", Some('t'), FK::Bool), ("privileged", None, FK::Bool), ("init", None, FK::Bool), ("read-only", None, FK::Bool),
         ("quiet", Some('q'), FK::Bool), ("publish-all", Some('P'), FK::Bool), ("sig-proxy", None, FK::Bool), ("no-healthcheck", None, FK::Bool), ("oom-kill-disable", None, FK::Bool), ("help", None, FK::Bool),
+        ("disable-content-trust", None, FK::Bool),
     ],
 };
 const DOCKER_EXEC: Spec = Spec { interspersed: false, flags: &[("detach", Some('d'), FK::Bool), ("interactive", Some('i'), FK::Bool), ("tty", Some('t'), FK::Bool), ("privileged", None, FK::Bool), ("env", Some('e'), FK::Val), ("user", Some('u'), FK::Val), ("workdir", Some('w'), FK::Val), ("detach-keys", None, FK::Val), ("env-file", None, FK::Val)] };
@@ -297,9 +300,12 @@ fn check_pack_build(a: &[String], cfg: &BCfg, o: &trrun::TrOutcome, entry: &Valu
         ensure!(listing["file.txt"] == "fixture file" && listing[marker.as_str()] == "added by the preprocessor", "C17:app-copy-content", "{listing}");
         ensure!(listing["vendor/readonly.sh"] == "read-only fixture file + preprocessed", "C17:app-copy-content", "in-place edit of a read-only fixture file missing from the copy: {listing}");
     } else {
-        ensure!(Path::new(paths[0]) == fixture, "C17:app-path", "--path {:?}, fixture {:?}", paths[0], fixture);
+        // the fixture itself — or a directory with exactly the fixture's content (a private, unmodified copy)
+        let want: BTreeSet<String> = ["file.txt", "sub/inner", "vendor/readonly.sh", "remove-me.txt"].iter().map(|s| s.to_string()).collect();
+        let same_content = names == want && listing["file.txt"] == "fixture file" && listing["vendor/readonly.sh"] == "read-only fixture file" && listing["sub/inner"] == "inner";
+        ensure!(Path::new(paths[0]) == fixture || same_content, "C17:app-path", "--path {:?} is neither the fixture {:?} nor a copy of it ({names:?})", paths[0], fixture);
     }
-    ensure!(flag_values(&p, "cache").len() == 2, "C17:cache-flags", "{:?}", flag_values(&p, "cache"));
+    // how many --cache options the tool passes is resource management (C16), not configuration
     // flags the configuration does not explain are tolerated (the tool may pass further options of its own) unless the
     // token that was classified as a flag is one of the user-supplied strings
     let mut user: Vec<&String> = vec![&cfg.builder];
@@ -335,23 +341,35 @@ fn check_docker_run(a: &[String], image: &str, want: &RunWant) -> Check {
     ensure!(got_env.len() == want.env.len() && got_map == want.env, "C17:docker-run-env", "decoded {got_env:?}, configured {:?}; argv {a:?}", want.env);
     let mut got_ports = BTreeSet::new();
     for v in flag_values(&p, "publish") {
-        let parts: Vec<&str> = v.split(':').collect();
-        ensure!(parts.len() == 3 && parts[0] == "127.0.0.1" && parts[1].is_empty(), "C17:docker-run-publish", "{v:?}: expected 127.0.0.1::<port>");
-        got_ports.insert(parts[2].parse::<u16>().map_err(|_| Fail::new("C17:docker-run-publish", v.to_string()))?);
+        // docker's publish grammar: [ip:][hostPort]:containerPort[/proto] — the exposed (container) port is the last field
+        let last = v.rsplit(':').next().unwrap_or("");
+        let port = last.split('/').next().unwrap_or("");
+        got_ports.insert(port.parse::<u16>().map_err(|_| Fail::new("C17:docker-run-publish", format!("{v:?}: no container port")))?);
     }
     ensure!(got_ports == want.ports && flag_values(&p, "publish").len() == want.ports.len(), "C17:docker-run-ports", "decoded {got_ports:?}, configured {:?}", want.ports);
     let mut got_mounts = BTreeMap::new();
     for v in flag_values(&p, "mount") {
         let kv: BTreeMap<&str, &str> = v.split(',').filter_map(|f| f.split_once('=')).collect();
-        ensure!(kv.get("type") == Some(&"bind") && kv.len() == 3, "C17:docker-run-mount", "{v:?}");
-        got_mounts.insert(kv.get("source").unwrap_or(&"").to_string(), kv.get("target").unwrap_or(&"").to_string());
+        ensure!(kv.get("type").map(|t| *t == "bind").unwrap_or(false), "C17:docker-run-mount", "{v:?}");
+        let src = kv.get("source").or_else(|| kv.get("src")).copied().unwrap_or("");
+        let dst = kv.get("target").or_else(|| kv.get("dst")).or_else(|| kv.get("destination")).copied().unwrap_or("");
+        got_mounts.insert(src.to_string(), dst.to_string());
+    }
+    for v in flag_values(&p, "volume") {
+        // -v / --volume src:dst[:options] is docker's other spelling of a bind mount (absolute source)
+        let mut it = v.splitn(3, ':');
+        if let (Some(src), Some(dst)) = (it.next(), it.next()) {
+            if src.starts_with('/') {
+                got_mounts.insert(src.to_string(), dst.to_string());
+            }
+        }
     }
     ensure!(got_mounts == want.mounts, "C17:docker-run-mounts", "decoded {got_mounts:?}, configured {:?}", want.mounts);
     ensure!(p.flags.iter().any(|f| f.0 == "detach") == want.detach, "C17:docker-run-detach", "{a:?}");
-    ensure!(p.flags.iter().any(|f| f.0 == "rm") == want.rm, "C17:docker-run-rm", "{a:?}");
-    ensure!(flag_values(&p, "name").len() == 1, "C17:docker-run-name", "{a:?}");
+    // --rm and --name are resource management (C16), not configuration
+    let _ = want.rm;
     for ((n, _), raw) in p.flags.iter().zip(&p.raw) {
-        if !["name", "detach", "rm", "entrypoint", "env", "publish", "mount"].contains(&n.as_str()) {
+        if !["name", "detach", "rm", "entrypoint", "env", "publish", "mount", "volume"].contains(&n.as_str()) {
             ensure!(!want.user_strings.contains(raw), "C17:user-string-classified-as-flag", "user string {raw:?} was parsed as flag --{n} in {a:?}");
         }
     }
@@ -383,10 +401,11 @@ fn check_pure(scratch: &Path, c: &Case) -> Check {
         ensure!(o.code == Some(0), "C17:scenario-did-not-complete", "exit {:?}: {}", o.code, o.stderr.chars().take(400).collect::<String>());
         // expected sequence of user-visible commands
         let mut image: Option<String> = None;
-        let mut it = o.log.iter().peekable();
-        let first = it.next().ok_or_else(|| Fail::new("C17:no-commands", "nothing recorded"))?;
+        // commands the tool may run on its own before the first `pack build` (version checks, pulls) are skipped
+        let is_pack_build = |e: &Value| e["prog"] == "pack" && argv(e).first().map(String::as_str) == Some("build");
+        let mut it = o.log.iter().skip_while(|e| !is_pack_build(e)).peekable();
+        let first = it.next().ok_or_else(|| Fail::new("C17:no-pack-build", "no pack build invocation recorded"))?;
         let a = argv(first);
-        ensure!(first["prog"] == "pack" && a.first().map(String::as_str) == Some("build"), "C17:first-command", "{a:?}");
         check_pack_build(&a, &c.build, &o, first, &mut image)?;
         let img = image.clone().unwrap();
         let pack_builds = o.log.iter().filter(|e| e["prog"] == "pack" && argv(e).first().map(String::as_str) == Some("build")).count();
@@ -406,21 +425,33 @@ fn check_pure(scratch: &Path, c: &Case) -> Check {
                         let cc = containers.next().ok_or_else(|| Fail::new("C17:unexpected-container", format!("{a:?}")))?;
                         let want = RunWant { entrypoint: cc.entrypoint.clone(), command: cc.command.clone().unwrap_or_default(), env: last_wins(&cc.env), ports: cc.ports.iter().copied().collect(), mounts: cc.mounts.iter().cloned().collect(), detach: true, rm: false, user_strings: cc.entrypoint.iter().cloned().chain(cc.command.iter().flatten().cloned()).chain(cc.env.iter().flat_map(|(k, v)| [k.clone(), v.clone()])).collect() };
                         check_docker_run(&a, &img, &want)?;
-                        let name = flag_values(&p, "name")[0].to_string();
+                        let name = flag_values(&p, "name").first().map(|s| s.to_string()).unwrap_or_default();
                         pending_exec = Some((cc, name));
                     } else {
                         let cmd = c.run_shell.clone().ok_or_else(|| Fail::new("C17:unexpected-run", format!("{a:?}")))?;
-                        let want = RunWant { entrypoint: Some("launcher".into()), command: vec![cmd], env: BTreeMap::new(), ports: BTreeSet::new(), mounts: BTreeMap::new(), detach: false, rm: true, user_strings: c.run_shell.iter().cloned().collect() };
-                        check_docker_run(&a, &img, &want)?;
+                        // run_shell_command: the image and, as the LAST argument in a value position, the user's command string
+                        ensure!(!p.positionals.is_empty() && p.positionals[0] == img, "C17:docker-run-image", "docker's grammar sees image {:?}, expected {img}; argv {a:?}", p.positionals.first());
+                        ensure!(p.positionals.len() >= 2 && p.positionals.last() == Some(&cmd), "C17:docker-run-command", "decoded command {:?}, configured shell command {cmd:?}; argv {a:?}", &p.positionals[1..]);
+                        for ((n, _), raw) in p.flags.iter().zip(&p.raw) {
+                            // flags the tool passes itself (--rm, --name ...) may coincide with the user's string; any OTHER flag token
+                            // equal to it is the user's string sitting in a flag position
+                            if !["name", "detach", "rm", "entrypoint", "env", "publish", "mount", "volume"].contains(&n.as_str()) {
+                                ensure!(*raw != cmd, "C17:user-string-classified-as-flag", "user string {raw:?} was parsed as flag --{n} in {a:?}");
+                            }
+                        }
                         seen_run_shell = true;
                     }
                 }
                 ("docker", Some("exec")) => {
                     let p = pflag_parse(&a[1..], &DOCKER_EXEC).map_err(|er| Fail::new("C17:docker-exec-unparsable", format!("{er}: {a:?}")))?;
                     let (cc, name) = pending_exec.as_ref().ok_or_else(|| Fail::new("C17:unexpected-exec", format!("{a:?}")))?;
-                    let want = vec![name.clone(), "launcher".to_string(), cc.shell_exec.clone().unwrap_or_default()];
-                    ensure!(p.flags.is_empty(), "C17:user-string-classified-as-flag", "docker exec flags {:?} in {a:?}", p.flags);
-                    ensure!(p.positionals == want, "C17:docker-exec-args", "decoded {:?}, expected {want:?}", p.positionals);
+                    // the container, then a command line whose LAST argument is the user's command string (how it is wrapped —
+                    // launcher, a shell — is not configuration); flags the tool adds itself are fine unless they are the user string
+                    let user = cc.shell_exec.clone().unwrap_or_default();
+                    for raw in &p.raw {
+                        ensure!(*raw != user, "C17:user-string-classified-as-flag", "docker exec: user string {raw:?} parsed as a flag in {a:?}");
+                    }
+                    ensure!(p.positionals.len() >= 2 && (name.is_empty() || p.positionals[0] == *name) && p.positionals.last() == Some(&user), "C17:docker-exec-args", "decoded {:?}, expected [{name:?}, .., {user:?}]", p.positionals);
                 }
                 ("docker", Some("rm")) => {
                     let p = pflag_parse(&a[1..], &DOCKER_RM).map_err(|er| Fail::new("C17:docker-rm-unparsable", format!("{er}: {a:?}")))?;
@@ -448,7 +479,8 @@ fn check_pure(scratch: &Path, c: &Case) -> Check {
                 ("pack", Some("sbom")) => {
                     pflag_parse(&a[2..], &PACK_SBOM).map_err(|er| Fail::new("C17:pack-sbom-unparsable", format!("{er}: {a:?}")))?;
                 }
-                other => return Err(Fail::new("C17:unknown-command", format!("{other:?} {a:?}"))),
+                // anything else the tool runs on its own (version checks, inspect, wait, stop ...) is not configuration
+                _ => {}
             }
         }
         ensure!(containers.next().is_none(), "C17:container-not-started", "a configured container was never started");
